@@ -1016,6 +1016,7 @@ TRANSPARENT = [
     (r"slice::<impl \[T\]>::(iter|iter_mut|first|last|get|to_vec|into_vec|first_mut|last_mut)$", [0]),
     (r"(vec::Vec::<T, A>|vec::Vec::<T>)::(drain|as_slice|as_mut_slice|last_mut|iter|pop|remove|first)$", [0]),
     (r"vec_deque::VecDeque::<T, A>::(pop_front|pop_back|front|back|iter|drain)$", [0]),
+    (r"linked_list::LinkedList::<T, A>::(pop_front|pop_back|front|back|iter)$", [0]),
     (r"iter::(traits::)?(collect::)?IntoIterator>?::into_iter$", [0]),
     (r"Iterator>?::(next|collect|cloned|copied|rev|enumerate|peekable|filter|find|skip_while|take_while|last|nth)$", [0]),
     (r"Iterator>?::(chain|zip)$", [0, 1]),
@@ -1861,9 +1862,10 @@ def result_switches(fn, call_block, ty_part=None, proj=None):
                         and not st["rv"]["op"]["p"] and st["rv"]["op"]["l"] in derived:
                     derived.add(st["lhs"]["l"])
             bt = blk["term"]
-            if bt["k"] == "call" and "dest" in bt and not bt["dest"]["p"] and re.search(r"ops::try_trait::Try>?::branch$", bt["callee"]) \
+            if bt["k"] == "call" and "dest" in bt and not bt["dest"]["p"] and \
+                    (re.search(r"ops::try_trait::Try>?::branch$", bt["callee"]) or Fn._VT_SAME.search(bt["callee"])) \
                     and bt["args"] and bt["args"][0]["k"] in ("copy", "move") and not bt["args"][0]["p"] and bt["args"][0]["l"] in derived:
-                derived.add(bt["dest"]["l"])
+                derived.add(bt["dest"]["l"])     # `?`, or a combinator that keeps the variant (map / map_err / as_ref ..)
 
     def pred(info):
         if info.get("kind") != "discr" or info["place"]["l"] not in derived:
